@@ -1467,7 +1467,8 @@ class ClassicChannel(utils.EventEmitter):
                     enabled = option[1][0] != 0
                     logger.debug("Peer requests FCS: %s", enabled)
                     if (
-                        L2CAP_Information_Request.ExtendedFeatures.FCS_OPTION
+                        not enabled
+                        or L2CAP_Information_Request.ExtendedFeatures.FCS_OPTION
                         in self.manager.extended_features
                     ):
                         self.fcs_enabled = enabled
@@ -1477,7 +1478,8 @@ class ClassicChannel(utils.EventEmitter):
                         result = (
                             L2CAP_Configure_Response.Result.FAILURE_UNACCEPTABLE_PARAMETERS
                         )
-                        replied_options = [option]
+                        # Suggest the value that would be accepted: No FCS.
+                        replied_options = [(option[0], bytes([0]))]
                         break
                 case _:
                     logger.debug(
@@ -1536,6 +1538,11 @@ class ClassicChannel(utils.EventEmitter):
             == L2CAP_Configure_Response.Result.FAILURE_UNACCEPTABLE_PARAMETERS
         ):
             # Re-configure with what's suggested in the response
+            for option_type, option_value in (
+                L2CAP_Control_Frame.decode_configuration_options(response.options)
+            ):
+                if option_type == L2CAP_Configure_Request.ParameterType.FCS:
+                    self.fcs_enabled = option_value[0] != 0
             self.send_control_frame(
                 L2CAP_Configure_Request(
                     identifier=self.manager.next_identifier(self.connection),
